@@ -657,7 +657,21 @@ impl WorldC {
         full["deposits"] = json!(self.deposit_balances().into_iter().map(|(k, v)| (k, v.to_string())).collect::<BTreeMap<String, String>>());
         if tx_failed {
             if let Some(prev) = &self.last_full_obs {
-                if *prev != full {
+                // ballot counts are only listed for deeply inspected proposals: compare them where both
+                // observations have them, statuses and deposit balances always
+                let mut a = prev.clone();
+                let mut b = full.clone();
+                for m in &self.msigs {
+                    if let (Some(x), Some(y)) = (a.get_mut(&m.label).and_then(|v| v.as_array_mut()), b.get_mut(&m.label).and_then(|v| v.as_array_mut())) {
+                        for (px, py) in x.iter_mut().zip(y.iter_mut()) {
+                            if px["votes"].is_null() || py["votes"].is_null() {
+                                px["votes"] = Value::Null;
+                                py["votes"] = Value::Null;
+                            }
+                        }
+                    }
+                }
+                if a != b {
                     self.viol(
                         out,
                         "C05",
